@@ -30,7 +30,7 @@ CHECKS = {
     "C09": ("exploration", "independent HMAC-SHA-256 oracle over PRF configurations x verification x input shapes",
             "Every PRF output is recomputed with hmac/sha2 directly from the secrets read back from the store; enabled flag, capability gating and malformed-request rejection (no collaborator call) are checked on the event log.", "§4 C09"),
     "C10": ("exploration", "differential monitor: compiled table vs reference PSL algorithm over the shipped .dat, all rules",
-            "Every rule of the shipped list (exhaustive) in several extensions plus arbitrary strings is looked up in the compiled table and compared with the publicsuffix.org algorithm run over the .dat file; structural clauses for all strings.", "§4 C10"),
+            "Every rule of the shipped list (exhaustive) in several extensions plus arbitrary strings is looked up in the compiled table and compared with the publicsuffix.org algorithm run over the .dat file; structural clauses for all strings; one provider object shared by 8-16 threads and a second Table implementation used in the same process are compared with fresh-object / list-algorithm answers.", "§4 C10"),
     "C11": ("exploration", "complete enumeration of the discoverability product with instrumented store",
             "The full product capability x residentKey x requireResidentKey x credProps x CTAP rk is executed; rk seen by the store, stored user handle, credProps and later assertion user handle are compared with tables written from the specs.", "§4 C11"),
     "C12": ("exploration", "own encoder/decoder as oracle; truncation and single-byte corruption sweeps",
@@ -42,7 +42,7 @@ CHECKS = {
     "C15": ("exploration", "crash-isolating workers with counting allocator and CPU clock over structure-aware mutations; ASan/Miri in thorough",
             "Every public decoder is fed mutated valid encodings and random input in isolated worker processes that measure panics, aborts, stack overflow, largest allocation request, peak live bytes and thread CPU time per input.", "§4 C15"),
     "C16": ("exploration", "own packet parser + exactly-once accounting per channel over all lengths and channel interleavings",
-            "Bytes written by Message::send are parsed by an own parser against the CTAPHID layout; handle_packet return values are accounted per channel (exactly once, on the last packet) for all payload lengths and for exhaustive/sampled merges of several channels.", "§4 C16"),
+            "Bytes written by Message::send are parsed by an own parser against the CTAPHID layout; handle_packet return values are accounted per channel (exactly once, on the last packet) for all payload lengths, for exhaustive/sampled merges of several channels, for dozens of channels at once, through buffering and faulty writers, and with injected delays between packets.", "§4 C16"),
     "C17": ("exploration", "p256 verification + own raw-format encoders/parsers over U2F histories",
             "Registration/authentication signatures are verified with p256 directly over the byte strings the U2F spec prescribes; encode() is compared with an own encoder; generated request frames are parsed back.", "§4 C17"),
     "C18": ("exploration", "differential monitor (trait route vs direct method) in crash-isolating workers",
